@@ -1,0 +1,13 @@
+//go:build verif
+
+package ioutil
+
+// Contracts for gocv (see /verif/DESIGN.md). Comment-only file.
+
+//@ package ioutil
+//@ import io "io"
+//@ import ocispec "github.com/opencontainers/image-spec/specs-go/v1"
+//@
+//@ func CopyBuffer
+//@   ensures [C05:nil-means-verified] result == nil ==> matched(src, desc)
+//@   ensures [monotone] forall s io.Reader, d ocispec.Descriptor :: old(matched(s, d)) ==> matched(s, d)
